@@ -39,7 +39,13 @@ Inductive stmt :=
 | SDef (x : id) (e : expr)            (* x = e, the first binding of x in source order (inferred definition) *)
 | SDecl (x : id) (t : ty) (e : expr)
 | SIf (c : expr) (s1 s2 : stmt)      (* elif = SIf in the else position, as in mypy's AST *)
-| SWhile (c : expr) (b : stmt)
+| SWhile (c : expr) (b : stmt) (els : stmt)   (* while c: b else: els *)
+| SFor (x : id) (rng : bool) (e : expr) (b : stmt) (els : stmt)  (* for x in range(e) / for x in e : b else: els *)
+| SBreak
+| SContinue
+| SRaise (c : id) (args : list expr)          (* raise C(args) *)
+| STry (b : stmt) (c : id) (x : option id) (h : stmt) (els : stmt)   (* try: b except C as x: h else: els *)
+| SFinally (b : stmt) (f : stmt)              (* try: b finally: f *)
 | SReturn (e : expr)
 | SAssert (e : expr)
 | SPass
@@ -111,3 +117,6 @@ Fixpoint find_method (P : prog) (mro : list id) (m : id) : option (id * fdecl) :
 Definition method_of (P : prog) (c m : id) : option (id * fdecl) := find_method P (mro_of P c) m.
 
 Definition self_id : id := 0.
+
+(* class id of the modelled builtin `Exception` (an ordinary entry of the class table, without attributes) *)
+Definition exc_id : id := 0.
